@@ -1,6 +1,6 @@
 (* C05/ProofsCor.v - corollaries of the refinement that spell out the clauses of the property. *)
 From Coq Require Import NArith Arith List Bool Lia.
-From Morfuse Require Import Base.Arr Base.ListX C05.Model C05.Spec C05.ProofsCells C05.ProofsHeap C05.Proofs.
+From Morfuse Require Import Base.Arr Base.ListX C05.Model C05.Spec C05.ProofsCells C05.ProofsLib C05.ProofsHeap C05.Proofs.
 Import ListNotations.
 Local Open Scope N_scope.
 
@@ -58,9 +58,9 @@ Qed.
 Theorem run_app ops o : run (ops ++ [o]) = run ops ++ [obs_after ops o].
 Proof. apply (m_from_app ops m_init o). Qed.
 
-Lemma final_sim ops : forall sc h s, R h s [] ->
+Lemma final_sim ops : forall sc h s, R h s ->
   fst (m_final (sc, h) ops) = fst (s_final (sc, s) ops) /\
-  R (snd (m_final (sc, h) ops)) (snd (s_final (sc, s) ops)) [].
+  R (snd (m_final (sc, h) ops)) (snd (s_final (sc, s) ops)).
 Proof.
   induction ops as [|o ops IH]; intros sc h s HR; cbn [m_final s_final]; [now split|].
   destruct (step_sim sc h s o HR) as (E1 & _ & E3).
@@ -71,7 +71,7 @@ Qed.
 (* every reachable pair of states is related *)
 Theorem reachable_R ops :
   fst (m_final m_init ops) = fst (s_final s_init ops) /\
-  R (snd (m_final m_init ops)) (snd (s_final s_init ops)) [].
+  R (snd (m_final m_init ops)) (snd (s_final s_init ops)).
 Proof. apply (final_sim ops sched_init heap_init store_init R_init). Qed.
 
 Theorem obs_after_spec ops o : obs_after ops o = snd (s_step (s_final s_init ops) o).
@@ -83,17 +83,20 @@ Qed.
 
 (* ---- no undefined behaviour ---------------------------------------------------------------------- *)
 Theorem reachable_heap_good ops : good (hc (snd (m_final m_init ops))).
-Proof. destruct (reachable_R ops) as [_ HR]. apply (r_good _ _ _ HR). Qed.
+Proof. destruct (reachable_R ops) as [_ HR]. apply (r_good _ _ HR). Qed.
+
+Lemma s_mk_obs_ub c sc s ok : oub (mk_obs store s_obs c sc s ok) = false.
+Proof. reflexivity. Qed.
 
 Lemma s_step_ub st o : oub (snd (s_step st o)) = false.
 Proof.
   destruct st as [sc s]. unfold s_step.
-  destruct o as [lbl np steps f args|r|r|r|r|a b|a b|dt| |]; cbn [step_op]; try reflexivity.
+  destruct o as [lbl np prog args|r|r|r|r|a b|a b|dt| |]; cbn [step_op]; try reflexivity.
   - destruct (s_begin lbl s) as [s1 t]. destruct lbl.
-    + destruct (run_main store s_end sc s1 t steps (resolve (bind np args) f)) as [sa s2].
-      destruct (resume store s_end s_kill (weight sa) sa s2) as [[sc3 s3] ok]. reflexivity.
+    + destruct (run_st store s_end s_kill s_spawn s_spawned sc s1 t _ _ _ _) as [sa s2].
+      destruct (resume store s_end s_kill s_kill s_spawn s_spawned (weight sa) sa s2) as [[sc3 s3] ok]. reflexivity.
     + reflexivity.
-  - destruct (resume store s_end s_kill _ _ s) as [[sc3 s3] ok]. reflexivity.
+  - destruct (resume store s_end s_kill s_kill s_spawn s_spawned _ _ s) as [[sc3 s3] ok]. reflexivity.
 Qed.
 
 Theorem never_ub ops : forall ob, In ob (run ops) -> oub ob = false.
@@ -105,90 +108,235 @@ Proof.
 Qed.
 
 (* ---- label not found ------------------------------------------------------------------------------ *)
-Theorem label_not_found_leaves_nothing sc h np steps f args :
-  let st' := fst (m_step (sc, h) (OCall false np steps f args)) in
-  let ob := snd (m_step (sc, h) (OCall false np steps f args)) in
-  fst st' = sc /\ hc (snd st') = hc h /\ vms (snd st') = vms h /\ ninst (snd st') = ninst h /\
+Theorem label_not_found_leaves_nothing sc h np prog args :
+  let st' := fst (m_step (sc, h) (OCall false np prog args)) in
+  let ob := snd (m_step (sc, h) (OCall false np prog args)) in
+  fst st' = sc /\ hc (snd st') = hc h /\ vms (snd st') = vms h /\ locs (snd st') = locs h /\
+  tcall (snd st') = tcall h /\ tmps (snd st') = tmps h /\
   recs (snd st') = recs h ++ [(nrec h, mkRec args None)] /\
-  ocall ob = CNoLabel /\ onrun ob = ninst h /\ onth ob = (length (pend sc) + length (paused sc))%nat.
+  ocall ob = CNoLabel /\ onrun ob = instances (map fst (vms h)) (tcall h) /\
+  onth ob = (length (pend sc) + length (paused sc))%nat.
 Proof. cbn. repeat split. Qed.
 
-Theorem label_not_found_spec sc s np steps f args :
-  let st' := fst (s_step (sc, s) (OCall false np steps f args)) in
-  fst st' = sc /\ alive (snd st') = alive s /\ done (snd st') = done s /\
+Theorem label_not_found_spec sc s np prog args :
+  let st' := fst (s_step (sc, s) (OCall false np prog args)) in
+  fst st' = sc /\ alive (snd st') = alive s /\ done (snd st') = done s /\ slocs (snd st') = slocs s /\
   srecs (snd st') = srecs s ++ [(snrec s, mkSRec args None)].
 Proof. cbn. repeat split. Qed.
 
 (* ---- delivery on the heap: every holder, whatever copies were made ------------------------------------ *)
-Theorem result_fanout t d h s xs rc : R h s xs -> In (t, rc) (vms h) ->
-  forall k, k <> rc -> holds (hc h) k t -> get (cells (hc (vm_end t (Some d) h))) k = Some (VD d).
+(* when the thread t ends - with a value, without one, or with the (possibly still pending) result of
+   its sub-thread - every live cell that is pending on t, other than the VM's own cell and the
+   thread's variable, holds exactly what the specification's entry for t says *)
+Theorem result_delivery t e h s rc : R h s -> In (t, rc) (vms h) ->
+  forall k, k <> rc -> lookup t (locs h) <> Some k ->
+    (holds (hc h) k t -> get (cells (hc (vm_end t e h))) k = Some (entry_val (end_entry s t e))) /\
+    (~ holds (hc h) k t -> get (cells (hc (vm_end t e h))) k = get (cells (hc h)) k).
 Proof.
-  intros HR Hin k Hk Hh.
-  assert (El : lookup t (vms h) = Some rc) by (apply (vms_lookup_in _ _ _ t rc HR); exact Hin).
-  assert (Hrc : get (cells (hc h)) rc = Some (VPtr t)) by now apply (r_vms _ _ _ HR).
-  pose proof (r_good _ _ _ HR) as Hg.
-  destruct (re_cell _ _ (proj2 Hg) rc t) as [l [Hl _]]; [discriminate|exact Hrc|].
-  unfold vm_end. rewrite El, Hrc. cbn [hc].
-  destruct (set_value_ref_ok (hc h) t d rc l Hg Hl) as (G1 & N1 & D).
-  destruct (D rc) as (_ & [d' Hrc1] & _); [exact Hrc|].
-  destruct (destroy_ok _ rc G1) as (G2 & C2 & N2); [unfold live; congruence|].
-  rewrite C2, gso by exact Hk. destruct (D k) as (Dv & _). now apply Dv.
+  intros HR Hin k Hk Hlk.
+  assert (El : lookup t (vms h) = Some rc) by (apply (vms_lookup_in _ _ t rc HR); exact Hin).
+  assert (Hrc : get (cells (hc h)) rc = Some (VPtr t)) by now apply (r_vms _ _ HR).
+  unfold vm_end. rewrite El, Hrc. cbn [hc]. fold (end_cells h t rc e).
+  destruct (end_cells_ok h s t rc e HR Hin) as [(G1 & N1 & D & [d' Hrc1]) Hq].
+  set (c1 := end_cells h t rc e) in *. set (lr := lookup t (locs h)) in *.
+  assert (Hx : forall x, lr = Some x -> x <> rc /\ ~ holds (hc h) x t /\ live (hc h) x)
+    by (intros x E; now apply (loc_cell_facts h s t rc x HR Hin)).
+  destruct (destroy_opt_ok c1 lr G1) as (G2 & N2 & C2).
+  { intros x E. destruct (Hx x E) as (X1 & X2 & X3). unfold live. destruct (D x) as [_ Dn]. now rewrite (Dn X2). }
+  set (c2 := destroy_opt c1 lr) in *.
+  assert (Hrc2 : get (cells c2) rc = Some (VD d')).
+  { rewrite C2. destruct (option_N_eq_dec lr (Some rc)) as [E|E]; [|exact Hrc1].
+    destruct (Hx rc E) as [X _]. congruence. }
+  assert (Edt : vm_dtor c2 rc = destroy c2 rc) by (unfold vm_dtor; now rewrite Hrc2).
+  rewrite Edt.
+  destruct (destroy_ok c2 rc G2) as (G3 & C3 & N3); [unfold live; congruence|].
+  rewrite C3, gso by exact Hk. rewrite C2.
+  destruct (option_N_eq_dec lr (Some k)) as [E|E]; [contradiction|].
+  destruct (D k) as [D1 D2]. split; [intro Hh; now apply D1|exact D2].
 Qed.
 
-Theorem result_none_fanout t h s xs rc : R h s xs -> In (t, rc) (vms h) ->
-  forall k, k <> rc -> holds (hc h) k t -> get (cells (hc (vm_end t None h))) k = Some (VD DNil).
+Theorem result_fanout t d h s rc : R h s -> In (t, rc) (vms h) ->
+  forall k, k <> rc -> holds (hc h) k t -> get (cells (hc (vm_end t (EVal d) h))) k = Some (VD d).
 Proof.
   intros HR Hin k Hk Hh.
-  assert (El : lookup t (vms h) = Some rc) by (apply (vms_lookup_in _ _ _ t rc HR); exact Hin).
-  assert (Hrc : get (cells (hc h)) rc = Some (VPtr t)) by now apply (r_vms _ _ _ HR).
-  pose proof (r_good _ _ _ HR) as Hg.
-  destruct (re_cell _ _ (proj2 Hg) rc t) as [l [Hl _]]; [discriminate|exact Hrc|].
-  unfold vm_end. rewrite El, Hrc. cbn [hc].
-  destruct (ptr_clear_ok (hc h) t l Hg Hl) as (G1 & N1 & D).
-  destruct (D rc) as (Hrc1 & _). specialize (Hrc1 Hrc).
-  destruct (destroy_ok _ rc G1) as (G2 & C2 & N2); [unfold live; congruence|].
-  rewrite C2, gso by exact Hk. destruct (D k) as (Dv & _). now apply Dv.
+  assert (Hlk : lookup t (locs h) <> Some k).
+  { intro E. destruct (loc_cell_facts h s t rc k HR Hin E) as (_ & X & _). contradiction. }
+  destruct (result_delivery t (EVal d) h s rc HR Hin k Hk Hlk) as [D _]. now apply D.
 Qed.
 
-(* a deleted thread: the holders stay pending, and nothing refers to the dead m_ReturnValue *)
-Theorem killed_stays_pending t h s xs rc : R h s xs -> In (t, rc) (vms h) ->
+Theorem result_none_fanout t h s rc : R h s -> In (t, rc) (vms h) ->
+  forall k, k <> rc -> holds (hc h) k t -> get (cells (hc (vm_end t ENone h))) k = Some (VD DNil).
+Proof.
+  intros HR Hin k Hk Hh.
+  assert (Hlk : lookup t (locs h) <> Some k).
+  { intro E. destruct (loc_cell_facts h s t rc k HR Hin E) as (_ & X & _). contradiction. }
+  destruct (result_delivery t ENone h s rc HR Hin k Hk Hlk) as [D _]. now apply D.
+Qed.
+
+(* forwarding: the thread ends with `end local.r` while local.r (the cell x) still holds the pending
+   result of the thread q: every holder of t's result becomes a holder of q's result *)
+Theorem result_forwarded t h s rc x q : R h s -> In (t, rc) (vms h) ->
+  lookup t (locs h) = Some x -> holds (hc h) x q ->
+  end_entry s t ELocal = RFwd q /\ In q (alive s) /\ t < q /\
+  forall k, k <> rc -> holds (hc h) k t -> holds (hc (vm_end t ELocal h)) k q.
+Proof.
+  intros HR Hin Ex Hxq.
+  pose proof (loc_corr h s t HR) as Hloc. rewrite Ex in Hloc.
+  destruct (lookup t (slocs s)) as [c|] eqn:Ec; [|tauto]. destruct Hloc as (Hok & Hi1 & Hi2).
+  assert (Ee : end_entry s t ELocal = RFwd q).
+  { unfold end_entry. rewrite Ec. unfold cell_ok, sref_val, holds in *. rewrite Hok in Hxq. injection Hxq as Hxq.
+    destruct (lookup c (done s)) as [[v|q']|]; cbn [entry_val] in Hxq.
+    - destruct v; discriminate.
+    - now injection Hxq as ->.
+    - now injection Hxq as ->. }
+  destruct (end_cells_ok h s t rc ELocal HR Hin) as [_ Hq]. destruct (Hq q Ee) as [Q1 Q2].
+  split; [exact Ee|]. split; [exact Q1|]. split; [exact Q2|].
+  intros k Hk Hh.
+  assert (Hlk : lookup t (locs h) <> Some k).
+  { intro E. destruct (loc_cell_facts h s t rc k HR Hin E) as (_ & X & _). contradiction. }
+  destruct (result_delivery t ELocal h s rc HR Hin k Hk Hlk) as [D _]. unfold holds. rewrite (D Hh), Ee. reflexivity.
+Qed.
+
+(* a deleted thread: its VM's destructor empties every holder, nothing stays pending on it *)
+Theorem killed_empties_every_holder t h s rc : R h s -> In (t, rc) (vms h) ->
   good (hc (vm_kill t h)) /\ thread_alive t (vm_kill t h) = false /\
-  forall k, k <> rc -> holds (hc h) k t -> holds (hc (vm_kill t h)) k t.
+  (forall k, k <> rc -> holds (hc h) k t -> get (cells (hc (vm_kill t h))) k = Some (VD DNil)) /\
+  (forall k, ~ holds (hc (vm_kill t h)) k t).
 Proof.
   intros HR Hin.
-  assert (El : lookup t (vms h) = Some rc) by (apply (vms_lookup_in _ _ _ t rc HR); exact Hin).
-  destruct (vm_kill_R t h s xs HR) as [HR' _].
-  split; [apply (r_good _ _ _ HR')|]. split.
-  - rewrite (alive_eq t _ _ _ HR'). unfold s_alive, s_kill. cbn [alive].
-    destruct (memN t (delN t (alive s))) eqn:E; [|reflexivity].
-    apply memN_in, in_delN in E. tauto.
-  - intros k Hk Hh. unfold vm_kill. rewrite El. cbn [hc].
-    assert (Hrc : get (cells (hc h)) rc = Some (VPtr t)) by now apply (r_vms _ _ _ HR).
-    destruct (destroy_ok (hc h) rc (r_good _ _ _ HR)) as (_ & C & _); [unfold live; congruence|].
-    unfold holds. rewrite C, gso by exact Hk. exact Hh.
+  destruct (vm_kill_R t h s HR) as [HR' _].
+  assert (Hna : ~ In t (alive (s_kill t s))).
+  { unfold s_kill, s_end. destruct (memN t (alive s)) eqn:E; cbn [alive].
+    - intro H. apply in_delN in H. tauto.
+    - intro H. apply memN_in in H. congruence. }
+  split; [apply (r_good _ _ HR')|]. split; [|split].
+  - rewrite (alive_eq t _ _ HR'). unfold s_alive.
+    destruct (memN t (alive (s_kill t s))) eqn:E; [|reflexivity]. apply memN_in in E. contradiction.
+  - intros k Hk Hh.
+    assert (Hnh : ~ holds (hc (vm_kill t h)) k t).
+    { intro H. apply Hna. eapply (r_ptr_alive _ _ HR'); eauto. }
+    assert (El : lookup t (vms h) = Some rc) by (apply (vms_lookup_in _ _ t rc HR); exact Hin).
+    assert (Hrc : get (cells (hc h)) rc = Some (VPtr t)) by now apply (r_vms _ _ HR).
+    unfold vm_kill. rewrite El. cbn [hc].
+    destruct (end_cells_ok h s t rc ENone HR Hin) as [(G1 & N1 & D & [d' Hrc1]) _]. cbn [end_cells] in *.
+    assert (Edt : vm_dtor (hc h) rc = destroy (ptr_clear (hc h) t) rc) by (unfold vm_dtor; now rewrite Hrc).
+    rewrite Edt.
+    destruct (destroy_ok (ptr_clear (hc h) t) rc G1) as (G2 & C2 & N2); [unfold live; congruence|].
+    assert (Hx : forall x, lookup t (locs h) = Some x -> x <> rc /\ ~ holds (hc h) x t /\ live (hc h) x)
+      by (intros x E; now apply (loc_cell_facts h s t rc x HR Hin)).
+    destruct (destroy_opt_ok (destroy (ptr_clear (hc h) t) rc) (lookup t (locs h)) G2) as (G3 & N3 & C3).
+    { intros x E. destruct (Hx x E) as (X1 & X2 & X3). unfold live. rewrite C2, gso by exact X1.
+      destruct (D x) as [_ Dn]. now rewrite (Dn X2). }
+    rewrite C3. destruct (option_N_eq_dec (lookup t (locs h)) (Some k)) as [E|E].
+    { destruct (Hx k E) as (_ & X & _). contradiction. }
+    rewrite C2, gso by exact Hk. destruct (D k) as [D1 _]. now apply D1.
+  - intros k Hh. apply Hna. eapply (r_ptr_alive _ _ HR'); eauto.
+Qed.
+
+(* the same for a thread that is deleted while its VM executes (it deletes itself, a thread it
+   started deletes it, an endon fires): the VM is only marked and its destructor runs when the
+   interpreter loop has returned - every holder is empty afterwards all the same *)
+Theorem killed_while_executing_empties_every_holder t h s rc : R h s -> In (t, rc) (vms h) ->
+  good (hc (vm_kill_exec t h)) /\ thread_alive t (vm_kill_exec t h) = false /\
+  (forall k, k <> rc -> holds (hc h) k t -> get (cells (hc (vm_kill_exec t h))) k = Some (VD DNil)) /\
+  (forall k, ~ holds (hc (vm_kill_exec t h)) k t).
+Proof.
+  intros HR Hin.
+  destruct (vm_kill_exec_R t h s HR) as [HR' _].
+  assert (Hna : ~ In t (alive (s_kill t s))).
+  { unfold s_kill, s_end. destruct (memN t (alive s)) eqn:E; cbn [alive].
+    - intro H. apply in_delN in H. tauto.
+    - intro H. apply memN_in in H. congruence. }
+  split; [apply (r_good _ _ HR')|]. split; [|split].
+  - rewrite (alive_eq t _ _ HR'). unfold s_alive.
+    destruct (memN t (alive (s_kill t s))) eqn:E; [|reflexivity]. apply memN_in in E. contradiction.
+  - intros k Hk Hh.
+    assert (El : lookup t (vms h) = Some rc) by (apply (vms_lookup_in _ _ t rc HR); exact Hin).
+    assert (Hrc : get (cells (hc h)) rc = Some (VPtr t)) by now apply (r_vms _ _ HR).
+    unfold vm_kill_exec, vm_mark, vm_reap. rewrite El. cbn [hc].
+    pose proof (r_good _ _ HR) as G0.
+    set (lr := lookup t (locs h)) in *.
+    assert (Hx : forall x, lr = Some x -> x <> rc /\ ~ holds (hc h) x t /\ live (hc h) x)
+      by (intros x E; now apply (loc_cell_facts h s t rc x HR Hin)).
+    destruct (destroy_opt_ok (hc h) lr G0) as (G1 & N1 & C1); [intros x E; now apply Hx|].
+    set (c1 := destroy_opt (hc h) lr) in *.
+    assert (Hkl : lr <> Some k) by (intro E; destruct (Hx k E) as (_ & X & _); contradiction).
+    assert (Hrc1 : get (cells c1) rc = Some (VPtr t)).
+    { rewrite C1. destruct (option_N_eq_dec lr (Some rc)) as [E|E]; [|exact Hrc]. destruct (Hx rc E) as [X _]. congruence. }
+    destruct (re_cell _ _ (proj2 G1) rc t) as [l [Hl _]]; [discriminate|exact Hrc1|].
+    destruct (ptr_clear_ok c1 t l G1 Hl) as (G2 & N2 & C2).
+    assert (Edt : vm_dtor c1 rc = destroy (ptr_clear c1 t) rc) by (unfold vm_dtor; now rewrite Hrc1).
+    rewrite Edt. destruct (C2 rc) as [Crc _]. specialize (Crc Hrc1).
+    destruct (destroy_ok (ptr_clear c1 t) rc G2) as (G3 & C3 & N3); [unfold live; congruence|].
+    rewrite C3, gso by exact Hk. destruct (C2 k) as [D1 _]. apply D1. unfold holds. rewrite C1.
+    destruct (option_N_eq_dec lr (Some k)); [contradiction|exact Hh].
+  - intros k Hh. apply Hna. eapply (r_ptr_alive _ _ HR'); eauto.
+Qed.
+
+(* nothing is pending once its thread is gone: in every reachable state a Pointer-typed cell
+   belongs to a thread that is alive *)
+Theorem pending_implies_alive ops :
+  forall k p, holds (hc (snd (m_final m_init ops))) k p -> exists rc, In (p, rc) (vms (snd (m_final m_init ops))).
+Proof.
+  destruct (reachable_R ops) as [_ HR]. intros k p Hh.
+  pose proof (r_ptr_alive _ _ HR k p Hh) as Ha. rewrite <- (r_alive _ _ HR) in Ha.
+  apply in_map_iff in Ha. destruct Ha as [[t rc] [E H]]. cbn in E. subst. now exists rc.
+Qed.
+
+(* in the specification: a slot that shows `pending` names an alive thread - the thread itself or
+   the one its result was forwarded to *)
+Theorem pending_slot_implies_alive ops :
+  forall r a t, In (r, mkSRec a (Some (SCall t))) (srecs (snd (s_final s_init ops))) ->
+    sref_tok (snd (s_final s_init ops)) (SCall t) = TPend ->
+    (lookup t (done (snd (s_final s_init ops))) = None /\ In t (alive (snd (s_final s_init ops)))) \/
+    (exists c, lookup t (done (snd (s_final s_init ops))) = Some (RFwd c) /\ In c (alive (snd (s_final s_init ops)))).
+Proof.
+  destruct (reachable_R ops) as [_ HR]. intros r a t Hin Htok.
+  unfold sref_tok in Htok. destruct (lookup t (done (snd (s_final s_init ops)))) as [[[d|]|c]|] eqn:El; try discriminate.
+  - right. exists c. split; [reflexivity|]. now destruct (r_fwd _ _ HR t c El).
+  - left. split; [reflexivity|].
+    destruct (F2_in_r _ _ _ _ (r_recs _ _ HR) Hin) as [[r' [a' o]] [_ (E1 & E2 & E3)]].
+    cbn [fst snd rargs rslot sargs sslot] in *. destruct o as [k|]; [|destruct E3].
+    unfold cell_ok, sref_val in E3. rewrite El in E3. eapply (r_ptr_alive _ _ HR); eauto.
 Qed.
 
 (* ---- invariants of the store through the scheduler ---------------------------------------------------- *)
 Section SInv.
   Variable P : store -> Prop.
-  Hypothesis P_end : forall t r s, P s -> P (s_end t r s).
-  Hypothesis P_kill : forall t s, P s -> P (s_kill t s).
+  Hypothesis P_end : forall t e s, P s -> P (s_end t e s).
+  Hypothesis P_spawn : forall t s, P s -> P (fst (s_spawn t s)).
+  Hypothesis P_spawned : forall t c s, P s -> P (s_spawned t c s).
 
-  Lemma s_run_main_inv sc s t steps f : P s -> P (snd (run_main store s_end sc s t steps f)).
+  Lemma P_kill t s : P s -> P (s_kill t s).
+  Proof. intro H. unfold s_kill. now apply P_end. Qed.
+
+  Lemma s_run_simple_inv sc s t steps f : P s -> P (snd (run_simple store s_end s_kill sc s t steps f)).
   Proof.
-    intro HP. unfold run_main. destruct steps as [|[d|d] rest]; cbn [snd]; auto.
-    destruct f as [[d|j]| | |d|d|]; cbn [snd]; auto.
+    intro HP. unfold run_simple. destruct steps as [|[d|d] rest]; cbn [snd]; auto.
+    destruct f as [[d|j|]| | |d|d| | |n|]; cbn [snd]; auto using P_kill.
   Qed.
 
-  Lemma s_run_thr_inv sc s th : P s -> P (snd (run_thr store s_end s_kill sc s th)).
+  Lemma s_run_st_inv subs : forall sc s t pre post f, P s ->
+    P (snd (run_st store s_end s_kill s_spawn s_spawned sc s t pre subs post f)).
   Proof.
-    intro HP. destruct th as [t steps f|t [|]]; cbn [run_thr].
-    - now apply s_run_main_inv.
-    - cbn [snd]. auto.
-    - destruct (lookup t (paused sc)) as [[steps f]|]; cbn [snd]; auto.
+    induction subs as [|l more IH]; intros sc s t pre post f HP; cbn [run_st].
+    - destruct pre as [|[d|d] rest]; cbn [snd]; auto. now apply s_run_simple_inv.
+    - destruct pre as [|[d|d] rest]; cbn [snd]; auto.
+      pose proof (P_spawn t s HP) as H1. destruct (s_spawn t s) as [s1 c]. cbn [fst] in H1.
+      pose proof (IH sc s1 c (lpre l) (lpost l) (resolve [] (lfin l)) H1) as H2.
+      destruct (run_st store s_end s_kill s_spawn s_spawned sc s1 c (lpre l) more (lpost l) (resolve [] (lfin l))) as [sa s2].
+      cbn [snd] in H2. apply s_run_simple_inv. now apply P_spawned.
   Qed.
 
-  Lemma s_resume_inv fuel : forall sc s, P s -> P (snd (fst (resume store s_end s_kill fuel sc s))).
+  Lemma s_run_thr_inv sc s th : P s -> P (snd (run_thr store s_end s_kill s_kill s_spawn s_spawned sc s th)).
+  Proof.
+    intro HP. destruct th as [t ts|t [|]]; cbn [run_thr].
+    - now apply s_run_st_inv.
+    - cbn [snd]. now apply P_kill.
+    - destruct (lookup t (paused sc)) as [ts|]; cbn [snd]; auto.
+  Qed.
+
+  Lemma s_resume_inv fuel : forall sc s, P s -> P (snd (fst (resume store s_end s_kill s_kill s_spawn s_spawned fuel sc s))).
   Proof.
     induction fuel as [|fuel IH]; intros sc s HP; cbn [resume].
     - destruct (pend sc) as [|x r]; cbn [fst snd]; auto.
@@ -197,85 +345,184 @@ Section SInv.
       destruct (frame sc <? wdue (min_w x r)); cbn [fst snd]; auto.
       pose proof (s_run_thr_inv (mkSched (remove_w (wseq (min_w x r)) (x :: r)) (paused sc) (frame sc) (clock sc) (sseq sc))
                                 s (wthr (min_w x r)) HP) as H1.
-      destruct (run_thr store s_end s_kill _ s (wthr (min_w x r))) as [sa sb]. cbn [snd] in H1. now apply IH.
+      destruct (run_thr store s_end s_kill s_kill s_spawn s_spawned _ s (wthr (min_w x r))) as [sa sb]. cbn [snd] in H1. now apply IH.
   Qed.
+
+  Lemma s_kill_all_inv l : forall s, P s -> P (fold_left (fun s t => s_kill t s) l s).
+  Proof. induction l as [|t l IH]; intros s HP; cbn [fold_left]; auto. apply IH. now apply P_kill. Qed.
 End SInv.
+
+(* a value, once in the map, stays: an entry that is not a forward is never rewritten *)
+Lemma lookup_end_other t e s u v : lookup u (done s) = Some (RVal v) -> ~ In u (alive s) ->
+  lookup u (done (s_end t e s)) = Some (RVal v) /\ ~ In u (alive (s_end t e s)).
+Proof.
+  intros Hl Hn. unfold s_end. destruct (memN t (alive s)) eqn:E; [|now split].
+  apply memN_in in E. cbn [done alive lookup]. destruct (N.eqb_spec t u) as [->|Ht]; [contradiction|].
+  rewrite lookup_map_subst, Hl. split; [reflexivity|]. intro H. apply in_delN in H. tauto.
+Qed.
 
 (* ---- the result of a thread that ends inside the call is in the record at once -------------------------- *)
 Definition slot_toks (d : dval) : list tok := match d with DNil => [] | _ => [TD d] end.
 
-Theorem result_sync ops np r args :
+Definition value_inv (t : N) (v : option dval) (s0 : store) (x : store) : Prop :=
+  lookup t (done x) = Some (RVal v) /\ ~ In t (alive x) /\ srecs x = srecs s0 /\ snrec x = snrec s0.
+
+Lemma value_inv_end t v s0 t0 e x : value_inv t v s0 x -> value_inv t v s0 (s_end t0 e x).
+Proof.
+  intros (H1 & H2 & H3 & H4). destruct (lookup_end_other t0 e x t v H1 H2) as [A B].
+  repeat split; auto; unfold s_end; destruct (memN t0 (alive x)); assumption.
+Qed.
+
+Lemma value_inv_spawn t v s0 t0 x : t < sncall x -> value_inv t v s0 x ->
+  value_inv t v s0 (fst (s_spawn t0 x)) /\ t < sncall (fst (s_spawn t0 x)).
+Proof.
+  intros Hlt (H1 & H2 & H3 & H4). unfold s_spawn, s_thread_begin. cbn [fst done alive srecs snrec sncall].
+  split; [|lia]. repeat split; auto. intro H. apply in_app_or in H. destruct H as [H|[E|[]]]; [contradiction|lia].
+Qed.
+
+(* the stack of calls / `thread` commands in progress is the same after a thread ran *)
+Lemma stmps_end t e x : stmps (s_end t e x) = stmps x.
+Proof. unfold s_end. destruct (memN t (alive x)); reflexivity. Qed.
+
+Lemma stmps_spawned t c x : stmps (s_spawned t c x) = tl (stmps x).
+Proof.
+  unfold s_spawned. destruct (stmps x) as [|u rest] eqn:E; [now rewrite E|].
+  destruct ((t <? u) && _); reflexivity.
+Qed.
+
+Lemma s_run_simple_stmps sc x t steps f : stmps (snd (run_simple store s_end s_kill sc x t steps f)) = stmps x.
+Proof.
+  unfold run_simple. destruct steps as [|[d|d] rest]; cbn [snd]; auto.
+  destruct f as [[d|j|]| | |d|d| | |n|]; cbn [snd]; auto using stmps_end; unfold s_kill; apply stmps_end.
+Qed.
+
+Lemma s_run_st_stmps subs : forall sc x t pre post f,
+  stmps (snd (run_st store s_end s_kill s_spawn s_spawned sc x t pre subs post f)) = stmps x.
+Proof.
+  induction subs as [|l more IH]; intros sc x t pre post f; cbn [run_st].
+  - destruct pre as [|[d|d] rest]; cbn [snd]; auto. apply s_run_simple_stmps.
+  - destruct pre as [|[d|d] rest]; cbn [snd]; auto.
+    pose proof (IH sc (fst (s_spawn t x)) (snd (s_spawn t x)) (lpre l) (lpost l) (resolve [] (lfin l))) as H.
+    destruct (s_spawn t x) as [s1 c] eqn:Es. cbn [fst snd] in H.
+    destruct (run_st store s_end s_kill s_spawn s_spawned sc s1 c (lpre l) more (lpost l) (resolve [] (lfin l))) as [sa s2].
+    cbn [snd] in H. rewrite s_run_simple_stmps, stmps_spawned, H.
+    unfold s_spawn, s_thread_begin in Es. injection Es as <- _. reflexivity.
+Qed.
+
+Lemma s_run_thr_stmps sc x th : stmps (snd (run_thr store s_end s_kill s_kill s_spawn s_spawned sc x th)) = stmps x.
+Proof.
+  destruct th as [t ts|t [|]]; cbn [run_thr].
+  - apply s_run_st_stmps.
+  - cbn [snd]. unfold s_kill. apply stmps_end.
+  - destruct (lookup t (paused sc)); reflexivity.
+Qed.
+
+Lemma s_resume_stmps fuel : forall sc x, stmps (snd (fst (resume store s_end s_kill s_kill s_spawn s_spawned fuel sc x))) = stmps x.
+Proof.
+  induction fuel as [|fuel IH]; intros sc x; cbn [resume].
+  - destruct (pend sc) as [|y r]; cbn [fst snd]; auto.
+    destruct (frame sc <? wdue (min_w y r)); reflexivity.
+  - destruct (pend sc) as [|y r]; cbn [fst snd]; auto.
+    destruct (frame sc <? wdue (min_w y r)); cbn [fst snd]; auto.
+    pose proof (s_run_thr_stmps (mkSched (remove_w (wseq (min_w y r)) (y :: r)) (paused sc) (frame sc) (clock sc) (sseq sc))
+                                x (wthr (min_w y r))) as H1.
+    destruct (run_thr store s_end s_kill s_kill s_spawn s_spawned _ x (wthr (min_w y r))) as [sa sb]. cbn [snd] in H1.
+    now rewrite IH.
+Qed.
+
+Lemma value_inv_spawned t v s0 t0 c x : value_inv t v s0 x -> value_inv t v s0 (s_spawned t0 c x).
+Proof.
+  intros (H1 & H2 & H3 & H4). unfold s_spawned. destruct (stmps x) as [|u rest]; [repeat split; auto|].
+  destruct ((t0 <? u) && _); repeat split; auto.
+Qed.
+
+Theorem result_sync ops np r args : r <> RLocal ->
   let d := eval_res (bind np args) r in
-  let ob := obs_after ops (OCall true np [] (FEnd r) args) in
+  let ob := obs_after ops (OCall true np [mkLevel [] [] (FEnd r)] args) in
   ocall ob = COk false (bind np args) /\
   exists pre k, orecs ob = pre ++ [(k, map TD args ++ slot_toks d)].
 Proof.
-  cbn zeta. rewrite obs_after_spec. destruct (reachable_R ops) as [_ HR].
+  intro Hr. cbn zeta. rewrite obs_after_spec. destruct (reachable_R ops) as [_ HR].
   destruct (s_final s_init ops) as [sc s]. cbn [snd] in HR.
-  set (h := snd (m_final m_init ops)) in *. set (d := eval_res (bind np args) r).
-  unfold s_step. cbn [step_op]. unfold s_begin. cbn [resolve run_main].
+  set (d := eval_res (bind np args) r).
+  unfold s_step. cbn [step_op tl lpre lpost lfin run_st]. unfold s_begin, s_thread_begin.
   set (t := sncall s).
-  set (s1 := mkStore (alive s ++ [t]) (done s) (srecs s) (snrec s) (t + 1)).
+  set (s1 := mkStore (alive s ++ [t]) (done s) (slocs s) (stcall s ++ [(t, t)]) (srecs s) (snrec s) (t + 1) (t :: stmps s)).
+  assert (Eres : resolve (bind np args) (FEnd r) = FEnd (RLit d)) by (destruct r; [reflexivity|reflexivity|contradiction]).
+  rewrite Eres. cbn [run_simple].
   assert (Hmem : memN t (alive s1) = true) by (apply memN_in; cbn; apply in_or_app; right; now left).
-  set (s2 := mkStore (delN t (alive s1)) ((t, Some d) :: done s1) (srecs s1) (snrec s1) (sncall s1)).
-  assert (E2 : s_end t (Some d) s1 = s2) by (unfold s_end; now rewrite Hmem).
-  fold d. rewrite E2.
-  set (P := fun x : store => lookup t (done x) = Some (Some d) /\ ~ In t (alive x) /\
-                              srecs x = srecs s /\ snrec x = snrec s).
-  assert (P_end : forall t0 r0 x, P x -> P (s_end t0 r0 x)).
-  { intros t0 r0 x (H1 & H2 & H3 & H4). unfold s_end. destruct (memN t0 (alive x)) eqn:E; [|repeat split; auto].
-    apply memN_in in E. repeat split; cbn [done alive srecs snrec]; auto.
-    - cbn [lookup]. destruct (N.eqb_spec t0 t); [congruence|exact H1].
-    - intro H. apply in_delN in H. tauto. }
-  assert (P_kill : forall t0 x, P x -> P (s_kill t0 x)).
-  { intros t0 x (H1 & H2 & H3 & H4). unfold s_kill. repeat split; cbn [done alive srecs snrec]; auto.
-    intro H. apply in_delN in H. tauto. }
-  assert (P2 : P s2).
-  { unfold P, s2. cbn [done alive srecs snrec lookup]. rewrite N.eqb_refl. repeat split.
-    intro H. apply in_delN in H. tauto. }
-  pose proof (s_resume_inv P P_end P_kill (weight sc) sc s2 P2) as P3.
-  destruct (resume store s_end s_kill (weight sc) sc s2) as [[sc3 s3] ok]. cbn [fst snd] in P3.
-  destruct P3 as (D3 & A3 & R3 & N3).
-  unfold s_finish. rewrite D3. cbn [snd mk_obs].
+  set (s2 := s_end t (EVal d) s1).
+  assert (P2 : (value_inv t (Some d) s s2 /\ t < sncall s2) /\ stmps s2 = t :: stmps s).
+  { unfold s2, s_end. rewrite Hmem. unfold value_inv. cbn [done alive srecs snrec sncall stmps lookup end_entry].
+    rewrite N.eqb_refl. repeat split; try reflexivity; try (unfold s1; cbn [sncall]; lia). intro H. apply in_delN in H. tauto. }
+  destruct P2 as [P2 T2].
+  set (P := fun x : store => value_inv t (Some d) s x /\ t < sncall x).
+  assert (P_end : forall t0 e x, P x -> P (s_end t0 e x)).
+  { intros t0 e x [H1 H2]. split; [now apply value_inv_end|]. unfold s_end. destruct (memN t0 (alive x)); assumption. }
+  assert (P_spawn : forall t0 x, P x -> P (fst (s_spawn t0 x))) by (intros t0 x [H1 H2]; now apply value_inv_spawn).
+  assert (P_spawned : forall t0 c x, P x -> P (s_spawned t0 c x)).
+  { intros t0 c x [H1 H2]. split; [now apply value_inv_spawned|]. unfold s_spawned.
+    destruct (stmps x) as [|u rest]; [exact H2|]. destruct ((t0 <? u) && _); exact H2. }
+  pose proof (s_resume_inv P P_end P_spawn P_spawned (weight sc) sc s2 P2) as P3.
+  pose proof (s_resume_stmps (weight sc) sc s2) as T3.
+  destruct (resume store s_end s_kill s_kill s_spawn s_spawned (weight sc) sc s2) as [[sc3 s3] ok]. cbn [fst snd] in P3, T3.
+  destruct P3 as [(D3 & A3 & R3 & N3) _]. rewrite T2 in T3.
+  unfold s_finish. rewrite T3, D3. cbn [snd mk_obs].
   unfold mk_obs, s_obs, s_alive. cbn [ocall orecs alive done srecs snrec sncall].
   split.
   - destruct (memN t (alive s3)) eqn:E; [apply memN_in in E; contradiction|reflexivity].
   - rewrite map_app. cbn [map fst snd].
-    exists (map (fun x => (fst x, srec_toks
-              (mkStore (alive s3) (done s3)
-                 (srecs s3 ++ [(snrec s3, mkSRec args (match d with DNil => None | DData _ _ => Some (SCall t) end))])
-                 (snrec s3 + 1) (sncall s3)) (snd x))) (srecs s3)), (snrec s3).
+    eexists. exists (snrec s3).
     f_equal. f_equal. f_equal. unfold srec_toks. cbn [sargs sslot]. f_equal.
     destruct d as [|k i]; [reflexivity|]. cbn [slot_toks sref_tok done]. now rewrite D3.
 Qed.
 
-(* ---- once delivered, for ever; never delivered for a deleted thread ---------------------------------------- *)
-Theorem result_stable sc h s o t x : R h s [] -> lookup t (done s) = Some x ->
-  lookup t (done (snd (fst (s_step (sc, s) o)))) = Some x.
+(* ---- the result map over time -------------------------------------------------------------------------- *)
+Definition val_inv (t : N) (v : option dval) (x : store) : Prop :=
+  (lookup t (done x) = Some (RVal v) /\ ~ In t (alive x)) /\ t < sncall x.
+
+Lemma val_inv_end t v t0 e x : val_inv t v x -> val_inv t v (s_end t0 e x).
+Proof.
+  intros [[H1 H2] H3]. split; [now apply lookup_end_other|]. unfold s_end. destruct (memN t0 (alive x)); exact H3.
+Qed.
+
+Lemma val_inv_spawn t v t0 x : val_inv t v x -> val_inv t v (fst (s_spawn t0 x)).
+Proof.
+  intros [[H1 H2] H3]. unfold s_spawn, s_thread_begin. cbn [fst]. split; [split|]; cbn [done alive sncall]; auto; [|lia].
+  intro H. apply in_app_or in H. destruct H as [H|[E|[]]]; [contradiction|lia].
+Qed.
+
+Lemma val_inv_spawned t v t0 c x : val_inv t v x -> val_inv t v (s_spawned t0 c x).
+Proof.
+  intros [[H1 H2] H3]. unfold s_spawned. destruct (stmps x) as [|u rest]; [now repeat split|].
+  destruct ((t0 <? u) && _); now repeat split.
+Qed.
+
+(* a value (or the empty result), once in the map, stays through every operation *)
+Theorem result_stable sc h s o t v : R h s -> lookup t (done s) = Some (RVal v) ->
+  lookup t (done (snd (fst (s_step (sc, s) o)))) = Some (RVal v).
 Proof.
   intros HR Hx.
-  set (P := fun y : store => lookup t (done y) = Some x /\ ~ In t (alive y)).
-  assert (P_end : forall t0 r0 y, P y -> P (s_end t0 r0 y)).
-  { intros t0 r0 y (H1 & H2). unfold s_end. destruct (memN t0 (alive y)) eqn:E; [|split; auto].
-    apply memN_in in E. split; cbn [done alive].
-    - cbn [lookup]. destruct (N.eqb_spec t0 t); [congruence|exact H1].
-    - intro H. apply in_delN in H. tauto. }
-  assert (P_kill : forall t0 y, P y -> P (s_kill t0 y)).
-  { intros t0 y (H1 & H2). unfold s_kill. split; cbn [done alive]; auto. intro H. apply in_delN in H. tauto. }
+  set (P := val_inv t v).
   assert (P0 : P s).
-  { split; [exact Hx|]. intro H. apply (r_pending _ _ _ HR) in H. congruence. }
-  assert (Ht : t < sncall s) by (eapply (r_done_fresh _ _ _ HR); eauto).
-  unfold s_step. destruct o as [lbl np steps f args|r|r|r|r|a b|a b|dt| |]; cbn [step_op].
+  { split; [split; [exact Hx|]|eapply (r_done_fresh _ _ HR); eauto].
+    intro H. apply (r_pending _ _ HR) in H. congruence. }
+  pose proof (val_inv_end t v) as P_end. pose proof (val_inv_spawn t v) as P_spawn.
+  pose proof (val_inv_spawned t v) as P_spawned.
+  unfold s_step. destruct o as [lbl np prog args|r|r|r|r|a b|a b|dt| |]; cbn [step_op].
   - unfold s_begin. destruct lbl.
-    + set (s1 := mkStore (alive s ++ [sncall s]) (done s) (srecs s) (snrec s) (sncall s + 1)).
-      assert (P1 : P s1).
-      { destruct P0 as [H1 H2]. split; [exact H1|]. cbn. intro H. apply in_app_or in H.
-        destruct H as [H|[E|[]]]; [contradiction|lia]. }
-      pose proof (s_run_main_inv P P_end sc s1 (sncall s) steps (resolve (bind np args) f) P1) as P2.
-      destruct (run_main store s_end sc s1 (sncall s) steps (resolve (bind np args) f)) as [sa s2]. cbn [snd] in P2.
-      pose proof (s_resume_inv P P_end P_kill (weight sa) sa s2 P2) as P3.
-      destruct (resume store s_end s_kill (weight sa) sa s2) as [[sc3 s3] ok]. cbn [fst snd] in *.
-      unfold s_finish. cbn [done]. apply P3.
+    + assert (P1 : P (fst (s_thread_begin (sncall s) s))).
+      { destruct P0 as [[H1 H2] H3]. unfold s_thread_begin. cbn [fst]. split; [split|]; cbn [done alive sncall]; auto; [|lia].
+        intro H. apply in_app_or in H. destruct H as [H|[E|[]]]; [contradiction|lia]. }
+      destruct (s_thread_begin (sncall s) s) as [s1 t1]. cbn [fst] in P1.
+      pose proof (s_run_st_inv P P_end P_spawn P_spawned (tl prog) sc s1 t1
+                    (lpre match prog with l :: _ => l | [] => mkLevel [] [] FFall end)
+                    (lpost match prog with l :: _ => l | [] => mkLevel [] [] FFall end)
+                    (resolve (bind np args) (lfin match prog with l :: _ => l | [] => mkLevel [] [] FFall end)) P1) as P2.
+      destruct (run_st store s_end s_kill s_spawn s_spawned sc s1 t1 _ _ _ _) as [sa s2]. cbn [snd] in P2.
+      pose proof (s_resume_inv P P_end P_spawn P_spawned (weight sa) sa s2 P2) as P3.
+      destruct (resume store s_end s_kill s_kill s_spawn s_spawned (weight sa) sa s2) as [[sc3 s3] ok]. cbn [fst snd] in *.
+      unfold s_finish. destruct P3 as [[H1 _] _]. destruct (stmps s3); cbn [done]; exact H1.
     + cbn [fst snd]. unfold s_finish. cbn [done]. exact Hx.
   - cbn [fst snd]. unfold s_copy. destruct (lookup r (srecs s)); exact Hx.
   - exact Hx.
@@ -286,65 +533,106 @@ Proof.
   - cbn [fst snd]. unfold s_massign. destruct (a =? b); [exact Hx|].
     destruct (sslot_of a s), (sslot_of b s); exact Hx.
   - exact Hx.
-  - pose proof (s_resume_inv P P_end P_kill (weight (mkSched (pend sc) (paused sc) (clock sc) (clock sc) (sseq sc)))
+  - pose proof (s_resume_inv P P_end P_spawn P_spawned (weight (mkSched (pend sc) (paused sc) (clock sc) (clock sc) (sseq sc)))
                              (mkSched (pend sc) (paused sc) (clock sc) (clock sc) (sseq sc)) s P0) as P3.
-    destruct (resume store s_end s_kill _ _ s) as [[sc3 s3] ok]. cbn [fst snd] in *. apply P3.
-  - exact Hx.
+    destruct (resume store s_end s_kill s_kill s_spawn s_spawned _ _ s) as [[sc3 s3] ok]. cbn [fst snd] in *. apply P3.
+  - cbn [fst snd]. unfold s_reset. apply (s_kill_all_inv P P_end (alive s) s P0).
 Qed.
 
-Theorem killed_never_delivers sc h s o t : R h s [] -> t < sncall s ->
-  ~ In t (alive s) -> lookup t (done s) = None ->
-  let s' := snd (fst (s_step (sc, s) o)) in ~ In t (alive s') /\ lookup t (done s') = None.
+(* forwarding in the specification: `end local.r` while the sub-thread c (or the thread its result
+   was forwarded to) is still pending makes t's result a forward; when that thread ends, every
+   entry forwarded to it becomes its entry - a value, the empty result, or a further forward *)
+Theorem forwarded_gets_the_entry q e s u : In q (alive s) -> lookup u (done s) = Some (RFwd q) ->
+  lookup u (done (s_end q e s)) = Some (end_entry s q e).
 Proof.
-  intros HR Ht Ha Hx. cbn zeta.
-  set (P := fun y : store => ~ In t (alive y) /\ lookup t (done y) = None).
-  assert (P_end : forall t0 r0 y, P y -> P (s_end t0 r0 y)).
-  { intros t0 r0 y (H1 & H2). unfold s_end. destruct (memN t0 (alive y)) eqn:E; [|split; auto].
-    apply memN_in in E. split; cbn [done alive].
-    - intro H. apply in_delN in H. tauto.
-    - cbn [lookup]. destruct (N.eqb_spec t0 t); [congruence|exact H2]. }
-  assert (P_kill : forall t0 y, P y -> P (s_kill t0 y)).
-  { intros t0 y (H1 & H2). unfold s_kill. split; cbn [done alive]; auto. intro H. apply in_delN in H. tauto. }
-  assert (P0 : P s) by (split; assumption).
-  unfold s_step. destruct o as [lbl np steps f args|r|r|r|r|a b|a b|dt| |]; cbn [step_op].
-  - unfold s_begin. destruct lbl.
-    + set (s1 := mkStore (alive s ++ [sncall s]) (done s) (srecs s) (snrec s) (sncall s + 1)).
-      assert (P1 : P s1).
-      { split; [|exact Hx]. cbn. intro H. apply in_app_or in H. destruct H as [H|[E|[]]]; [contradiction|lia]. }
-      pose proof (s_run_main_inv P P_end sc s1 (sncall s) steps (resolve (bind np args) f) P1) as P2.
-      destruct (run_main store s_end sc s1 (sncall s) steps (resolve (bind np args) f)) as [sa s2]. cbn [snd] in P2.
-      pose proof (s_resume_inv P P_end P_kill (weight sa) sa s2 P2) as P3.
-      destruct (resume store s_end s_kill (weight sa) sa s2) as [[sc3 s3] ok]. cbn [fst snd] in *.
-      unfold s_finish. cbn [done alive]. exact P3.
-    + cbn [fst snd]. unfold s_finish. cbn [done alive]. exact P0.
-  - cbn [fst snd]. unfold s_copy. destruct (lookup r (srecs s)); exact P0.
-  - exact P0.
-  - exact P0.
-  - exact P0.
-  - cbn [fst snd]. unfold s_assign. destruct (a =? b); [exact P0|].
-    destruct (sslot_of a s), (sslot_of b s); exact P0.
-  - cbn [fst snd]. unfold s_massign. destruct (a =? b); [exact P0|].
-    destruct (sslot_of a s), (sslot_of b s); exact P0.
-  - exact P0.
-  - pose proof (s_resume_inv P P_end P_kill (weight (mkSched (pend sc) (paused sc) (clock sc) (clock sc) (sseq sc)))
-                             (mkSched (pend sc) (paused sc) (clock sc) (clock sc) (sseq sc)) s P0) as P3.
-    destruct (resume store s_end s_kill _ _ s) as [[sc3 s3] ok]. cbn [fst snd] in *. exact P3.
-  - cbn [fst snd]. unfold s_reset. cbn [alive done]. split; [intros []|exact Hx].
+  intros Hq Hu. unfold s_end. apply memN_in in Hq. rewrite Hq. cbn [done lookup].
+  destruct (N.eqb_spec q u) as [->|Hn]; [reflexivity|].
+  rewrite lookup_map_subst, Hu. now rewrite N.eqb_refl.
+Qed.
+
+Theorem forward_entry s t c : lookup t (slocs s) = Some c ->
+  end_entry s t ELocal = match lookup c (done s) with Some x => x | None => RFwd c end.
+Proof. intro H. unfold end_entry. now rewrite H. Qed.
+
+(* a deleted thread's call has the empty result from the moment of the deletion on *)
+Theorem killed_call_reads_nil t h s : R h s -> In t (alive s) ->
+  lookup t (done (s_kill t s)) = Some (RVal None) /\ ~ In t (alive (s_kill t s)) /\
+  sref_tok (s_kill t s) (SCall t) = TD DNil.
+Proof.
+  intros HR Hin. unfold s_kill, s_end. apply memN_in in Hin. rewrite Hin.
+  unfold sref_tok. cbn [done alive lookup end_entry]. rewrite N.eqb_refl. repeat split.
+  intro H. apply in_delN in H. tauto.
+Qed.
+
+Theorem killed_call_reads_nil_for_ever sc h s o t : R h s -> lookup t (done s) = Some (RVal None) ->
+  sref_tok (snd (fst (s_step (sc, s) o))) (SCall t) = TD DNil.
+Proof.
+  intros HR Hx. unfold sref_tok. now rewrite (result_stable sc h s o t None HR Hx).
+Qed.
+
+(* everything that was forwarded to a thread that is then deleted reads NIL *)
+Theorem forwarded_to_a_killed_thread_reads_nil q s u : In q (alive s) -> lookup u (done s) = Some (RFwd q) ->
+  sref_tok (s_kill q s) (SCall u) = TD DNil.
+Proof.
+  intros Hq Hu. unfold sref_tok, s_kill. now rewrite (forwarded_gets_the_entry q ENone s u Hq Hu).
+Qed.
+
+(* Reset kills every alive thread: afterwards no thread is alive and no cell is pending *)
+Lemma alive_s_kill t s : alive (s_kill t s) = delN t (alive s).
+Proof.
+  unfold s_kill, s_end. destruct (memN t (alive s)) eqn:E; [reflexivity|].
+  symmetry. apply delN_notin. intro H. apply memN_in in H. congruence.
+Qed.
+
+Lemma alive_kill_all l : forall s, alive (fold_left (fun s t => s_kill t s) l s) = fold_left (fun a t => delN t a) l (alive s).
+Proof. induction l as [|t l IH]; intro s; cbn [fold_left]; [reflexivity|]. now rewrite IH, alive_s_kill. Qed.
+
+Lemma delN_all l : forall a, (forall x, In x a -> In x l) -> fold_left (fun a t => delN t a) l a = [].
+Proof.
+  induction l as [|t l IH]; intros a Ha; cbn [fold_left].
+  - destruct a as [|x a]; [reflexivity|]. destruct (Ha x); now left.
+  - apply IH. intros x Hx. apply in_delN in Hx. destruct Hx as [Hx Hn].
+    destruct (Ha x Hx) as [E|H]; [congruence|exact H].
+Qed.
+
+Theorem reset_leaves_nothing_pending h s : R h s ->
+  alive (s_reset s) = [] /\ vms (heap_reset h) = [] /\ forall k p, ~ holds (hc (heap_reset h)) k p.
+Proof.
+  intro HR. destruct (heap_reset_R h s HR) as [HR' _].
+  assert (E : alive (s_reset s) = []) by (unfold s_reset; rewrite alive_kill_all; now apply delN_all).
+  split; [exact E|]. split.
+  - pose proof (r_alive _ _ HR') as Ea. rewrite E in Ea. destruct (vms (heap_reset h)); [reflexivity|discriminate].
+  - intros k p Hh. pose proof (r_ptr_alive _ _ HR' k p Hh) as Ha. rewrite E in Ha. destruct Ha.
 Qed.
 
 (* what a slot shows *)
 Theorem slot_shows_result s t :
   (lookup t (done s) = None -> sref_tok s (SCall t) = TPend) /\
-  (forall d, lookup t (done s) = Some (Some d) -> sref_tok s (SCall t) = TD d) /\
-  (lookup t (done s) = Some None -> sref_tok s (SCall t) = TD DNil).
+  (forall d, lookup t (done s) = Some (RVal (Some d)) -> sref_tok s (SCall t) = TD d) /\
+  (lookup t (done s) = Some (RVal None) -> sref_tok s (SCall t) = TD DNil) /\
+  (forall c, lookup t (done s) = Some (RFwd c) -> sref_tok s (SCall t) = TPend).
 Proof. unfold sref_tok. repeat split; intros; now rewrite H. Qed.
 
 (* ---- the resume loop always ends within its fuel ------------------------------------------------------------ *)
 Definition wweight (l : list waiter) : nat := fold_right (fun w acc => (w_thr (wthr w) + acc)%nat) O l.
-Definition pweight (l : list (N * (list step * fin))) : nat :=
-  fold_right (fun x acc => (w_steps (fst (snd x)) + w_fin (snd (snd x)) + acc)%nat) O l.
+Definition pweight (l : list (N * tstate)) : nat := fold_right (fun x acc => (w_ts (snd x) + acc)%nat) O l.
+Definition w_subs (l : list level) : nat := fold_right (fun l acc => (w_level l + acc)%nat) O l.
 
 Lemma weight_eq s : weight s = (wweight (pend s) + pweight (paused s))%nat.
+Proof. reflexivity. Qed.
+
+Lemma w_ts_eq pre subs post f : w_ts (mkTS pre subs post f) = (w_steps pre + w_subs subs + w_steps post + w_fin f)%nat.
+Proof. reflexivity. Qed.
+
+Lemma w_steps_wait d r : w_steps (SWait d :: r) = S (w_steps r).
+Proof. reflexivity. Qed.
+Lemma w_steps_pause d r : w_steps (SPause d :: r) = S (S (w_steps r)).
+Proof. reflexivity. Qed.
+Lemma w_steps_nil : w_steps [] = O.
+Proof. reflexivity. Qed.
+Lemma w_subs_nil : w_subs [] = O.
+Proof. reflexivity. Qed.
+Lemma w_subs_cons l m : w_subs (l :: m) = (w_level l + w_subs m)%nat.
 Proof. reflexivity. Qed.
 
 Lemma wweight_app l1 l2 : wweight (l1 ++ l2) = (wweight l1 + wweight l2)%nat.
@@ -377,60 +665,92 @@ Qed.
 
 Lemma pweight_del t l : (pweight (del t l) <= pweight l)%nat.
 Proof.
-  unfold pweight. induction l as [|[k [a f]] l IH]; cbn [del fold_right]; [lia|].
+  unfold pweight. induction l as [|[k ts] l IH]; cbn [del fold_right]; [lia|].
   destruct (k =? t); cbn [fold_right]; lia.
 Qed.
 
-Lemma pweight_del_lookup t l steps f : lookup t l = Some (steps, f) ->
-  (pweight (del t l) + w_steps steps + w_fin f <= pweight l)%nat.
+Lemma pweight_del_lookup t l ts : lookup t l = Some ts -> (pweight (del t l) + w_ts ts <= pweight l)%nat.
 Proof.
-  unfold pweight. induction l as [|[k [a g]] l IH]; cbn [lookup del fold_right]; [discriminate|].
+  unfold pweight. induction l as [|[k a] l IH]; cbn [lookup del fold_right]; [discriminate|].
   destruct (N.eqb_spec k t) as [->|Hn].
-  - intro H. injection H as -> ->. pose proof (pweight_del t l) as Hd. unfold pweight in Hd. cbn [fst snd]. lia.
-  - intro H. specialize (IH H). cbn [fold_right fst snd]. lia.
+  - intro H. injection H as ->. pose proof (pweight_del t l) as Hd. unfold pweight in Hd. cbn [snd]. lia.
+  - intro H. specialize (IH H). cbn [fold_right snd]. lia.
 Qed.
+
+Lemma w_fin_resolve params f : w_fin (resolve params f) = w_fin f.
+Proof. destruct f as [[d|j|]| | |d|d| | |n|]; reflexivity. Qed.
 
 Section Fuel.
   Variable H : Type.
-  Variable h_end : N -> option dval -> H -> H.
+  Variable h_end : N -> endv -> H -> H.
   Variable h_kill : N -> H -> H.
+  Variable h_killx : N -> H -> H.
+  Variable h_spawn : N -> H -> H * N.
+  Variable h_spawned : N -> N -> H -> H.
 
   Lemma weight_add_wait s d th : weight (add_wait s d th) = (weight s + w_thr th)%nat.
   Proof. rewrite !weight_eq. unfold add_wait. cbn [pend paused]. rewrite wweight_app. cbn [wweight fold_right wthr]. lia. Qed.
 
-  Lemma weight_pause s t steps f : weight (pause s t steps f) = (weight s + w_steps steps + w_fin f)%nat.
-  Proof. rewrite !weight_eq. unfold pause. cbn [pend paused]. rewrite pweight_app. cbn [pweight fold_right fst snd]. lia. Qed.
+  Lemma weight_pause s t ts : weight (pause s t ts) = (weight s + w_ts ts)%nat.
+  Proof. rewrite !weight_eq. unfold pause. cbn [pend paused]. rewrite pweight_app. cbn [pweight fold_right snd]. lia. Qed.
 
-  Lemma run_thr_weight s h th :
-    (weight (fst (run_thr H h_end h_kill s h th)) + 1 <= weight s + w_thr th)%nat.
+  Ltac wsimp := rewrite ?weight_pause, ?weight_add_wait; cbn [w_thr]; rewrite ?w_ts_eq;
+                rewrite ?w_steps_wait, ?w_steps_pause, ?w_steps_nil, ?w_subs_nil, ?w_subs_cons; cbn [w_fin].
+
+  Lemma run_simple_weight s h t steps f :
+    (weight (fst (run_simple H h_end h_killx s h t steps f)) <= weight s + w_steps steps + w_fin f)%nat.
   Proof.
-    destruct th as [t steps f|t [|]]; cbn [run_thr].
-    - unfold run_main. destruct steps as [|[d|d] rest]; cbn [fst].
-      + destruct f as [[d|j]| | |d|d|]; cbn [fst];
-          rewrite ?weight_pause, ?weight_add_wait; cbn [w_thr w_steps w_fin fold_right]; unfold w_steps; lia.
-      + rewrite weight_add_wait. cbn [w_thr w_steps w_fin fold_right]. unfold w_steps. lia.
-      + rewrite weight_pause, weight_add_wait. cbn [w_thr w_steps w_fin fold_right]. unfold w_steps. lia.
-    - cbn [fst]. rewrite !weight_eq. cbn [pend paused].
-      pose proof (wweight_filter (fun w => negb (is_main t w)) (pend s)). pose proof (pweight_del t (paused s)).
-      cbn [w_thr w_steps w_fin fold_right]. unfold w_steps. lia.
-    - destruct (lookup t (paused s)) as [[steps f]|] eqn:El; cbn [fst].
-      + rewrite weight_add_wait. rewrite !weight_eq. cbn [pend paused].
-        pose proof (pweight_del_lookup t (paused s) steps f El). cbn [w_thr w_fin]. lia.
-      + cbn [w_thr w_steps w_fin fold_right]. unfold w_steps. lia.
+    unfold run_simple. destruct steps as [|[d|d] rest]; cbn [fst].
+    - destruct f as [[d|j|]| | |d|d| | |n|]; cbn [fst]; wsimp; lia.
+    - wsimp. lia.
+    - wsimp. lia.
   Qed.
 
-  Lemma resume_ok fuel : forall s h, (weight s <= fuel)%nat -> snd (resume H h_end h_kill fuel s h) = true.
+  Lemma run_st_weight subs : forall s h t pre post f,
+    (weight (fst (run_st H h_end h_killx h_spawn h_spawned s h t pre subs post f)) <= weight s + w_ts (mkTS pre subs post f))%nat.
+  Proof.
+    induction subs as [|l more IH]; intros s h t pre post f; cbn [run_st].
+    - destruct pre as [|[d|d] rest]; cbn [fst].
+      + pose proof (run_simple_weight s h t post f). wsimp. lia.
+      + wsimp. lia.
+      + wsimp. lia.
+    - destruct pre as [|[d|d] rest]; cbn [fst].
+      + destruct (h_spawn t h) as [h1 c].
+        pose proof (IH s h1 c (lpre l) (lpost l) (resolve [] (lfin l))) as H1. rewrite w_ts_eq, w_fin_resolve in H1.
+        destruct (run_st H h_end h_killx h_spawn h_spawned s h1 c (lpre l) more (lpost l) (resolve [] (lfin l))) as [s2 h2].
+        cbn [fst] in H1. pose proof (run_simple_weight s2 (h_spawned t c h2) t post f) as H2.
+        wsimp. unfold w_level. lia.
+      + wsimp. lia.
+      + wsimp. lia.
+  Qed.
+
+  Lemma run_thr_weight s h th :
+    (weight (fst (run_thr H h_end h_kill h_killx h_spawn h_spawned s h th)) + 1 <= weight s + w_thr th)%nat.
+  Proof.
+    destruct th as [t ts|t [|]]; cbn [run_thr].
+    - pose proof (run_st_weight (tsubs ts) s h t (tpre ts) (tpost ts) (tfin ts)) as H1.
+      destruct ts as [pre subs post f]. cbn [tpre tsubs tpost tfin w_thr] in *. lia.
+    - cbn [fst]. rewrite !weight_eq. cbn [pend paused].
+      pose proof (wweight_filter (fun w => negb (is_main t w)) (pend s)). pose proof (pweight_del t (paused s)).
+      cbn [w_thr]. lia.
+    - destruct (lookup t (paused s)) as [ts|] eqn:El; cbn [fst].
+      + rewrite weight_add_wait. rewrite !weight_eq. cbn [pend paused].
+        pose proof (pweight_del_lookup t (paused s) ts El). cbn [w_thr]. lia.
+      + cbn [w_thr]. lia.
+  Qed.
+
+  Lemma resume_ok fuel : forall s h, (weight s <= fuel)%nat -> snd (resume H h_end h_kill h_killx h_spawn h_spawned fuel s h) = true.
   Proof.
     induction fuel as [|fuel IH]; intros s h Hw; cbn [resume].
     - destruct (pend s) as [|x r] eqn:Ep; [reflexivity|].
       destruct (frame s <? wdue (min_w x r)); [reflexivity|].
-      exfalso. rewrite weight_eq, Ep in Hw. cbn in Hw. destruct (wthr x); cbn in Hw; lia.
+      exfalso. rewrite weight_eq, Ep in Hw. cbn [wweight fold_right] in Hw. destruct (wthr x); cbn [w_thr] in Hw; lia.
     - destruct (pend s) as [|x r] eqn:Ep; [reflexivity|].
       destruct (frame s <? wdue (min_w x r)); [reflexivity|].
       set (m := min_w x r).
       set (s1 := mkSched (remove_w (wseq m) (x :: r)) (paused s) (frame s) (clock s) (sseq s)).
       pose proof (run_thr_weight s1 h (wthr m)) as Hr.
-      destruct (run_thr H h_end h_kill s1 h (wthr m)) as [s2 h2]. cbn [fst] in Hr.
+      destruct (run_thr H h_end h_kill h_killx h_spawn h_spawned s1 h (wthr m)) as [s2 h2]. cbn [fst] in Hr.
       apply IH.
       pose proof (wweight_remove m (x :: r) (min_w_in r x)) as Hm.
       rewrite (weight_eq s) in Hw. rewrite (weight_eq s1) in Hr. rewrite Ep in Hw. unfold s1 in Hr. cbn [pend paused] in Hr. fold m in Hm. lia.
@@ -440,15 +760,15 @@ End Fuel.
 Lemma s_step_hang st o : ohang (snd (s_step st o)) = false.
 Proof.
   destruct st as [sc s]. unfold s_step.
-  destruct o as [lbl np steps f args|r|r|r|r|a b|a b|dt| |]; cbn [step_op]; try reflexivity.
+  destruct o as [lbl np prog args|r|r|r|r|a b|a b|dt| |]; cbn [step_op]; try reflexivity.
   - destruct (s_begin lbl s) as [s1 t]. destruct lbl.
-    + destruct (run_main store s_end sc s1 t steps (resolve (bind np args) f)) as [sa s2].
-      pose proof (resume_ok store s_end s_kill (weight sa) sa s2 (le_n _)) as Hok.
-      destruct (resume store s_end s_kill (weight sa) sa s2) as [[sc3 s3] ok]. cbn [snd] in Hok. subst ok.
+    + destruct (run_st store s_end s_kill s_spawn s_spawned sc s1 t _ _ _ _) as [sa s2].
+      pose proof (resume_ok store s_end s_kill s_kill s_spawn s_spawned (weight sa) sa s2 (le_n _)) as Hok.
+      destruct (resume store s_end s_kill s_kill s_spawn s_spawned (weight sa) sa s2) as [[sc3 s3] ok]. cbn [snd] in Hok. subst ok.
       unfold mk_obs. destruct (s_obs _) as [[a b] c]. reflexivity.
     + unfold mk_obs. destruct (s_obs _) as [[a b] c]. reflexivity.
-  - pose proof (resume_ok store s_end s_kill _ (mkSched (pend sc) (paused sc) (clock sc) (clock sc) (sseq sc)) s (le_n _)) as Hok.
-    destruct (resume store s_end s_kill _ _ s) as [[sc3 s3] ok]. cbn [snd] in Hok. subst ok.
+  - pose proof (resume_ok store s_end s_kill s_kill s_spawn s_spawned _ (mkSched (pend sc) (paused sc) (clock sc) (clock sc) (sseq sc)) s (le_n _)) as Hok.
+    destruct (resume store s_end s_kill s_kill s_spawn s_spawned _ _ s) as [[sc3 s3] ok]. cbn [snd] in Hok. subst ok.
     unfold mk_obs. destruct (s_obs _) as [[a b] c]. reflexivity.
 Qed.
 
@@ -481,21 +801,41 @@ Qed.
 
 Section Due.
   Variable H : Type.
-  Variable h_end : N -> option dval -> H -> H.
+  Variable h_end : N -> endv -> H -> H.
   Variable h_kill : N -> H -> H.
+  Variable h_killx : N -> H -> H.
+  Variable h_spawn : N -> H -> H * N.
+  Variable h_spawned : N -> N -> H -> H.
 
-  Lemma run_thr_frame s h th : frame (fst (run_thr H h_end h_kill s h th)) = frame s.
+  Lemma run_simple_frame s h t steps f : frame (fst (run_simple H h_end h_killx s h t steps f)) = frame s.
   Proof.
-    destruct th as [t steps f|t [|]]; cbn [run_thr].
-    - unfold run_main. destruct steps as [|[d|d] rest]; cbn [fst]; try reflexivity.
-      destruct f as [[d|j]| | |d|d|]; reflexivity.
+    unfold run_simple. destruct steps as [|[d|d] rest]; cbn [fst]; try reflexivity.
+    destruct f as [[d|j|]| | |d|d| | |n|]; reflexivity.
+  Qed.
+
+  Lemma run_st_frame subs : forall s h t pre post f,
+    frame (fst (run_st H h_end h_killx h_spawn h_spawned s h t pre subs post f)) = frame s.
+  Proof.
+    induction subs as [|l more IH]; intros s h t pre post f; cbn [run_st].
+    - destruct pre as [|[d|d] rest]; cbn [fst]; try reflexivity. apply run_simple_frame.
+    - destruct pre as [|[d|d] rest]; cbn [fst]; try reflexivity.
+      destruct (h_spawn t h) as [h1 c].
+      pose proof (IH s h1 c (lpre l) (lpost l) (resolve [] (lfin l))) as H1.
+      destruct (run_st H h_end h_killx h_spawn h_spawned s h1 c (lpre l) more (lpost l) (resolve [] (lfin l))) as [s2 h2].
+      cbn [fst] in H1. now rewrite run_simple_frame.
+  Qed.
+
+  Lemma run_thr_frame s h th : frame (fst (run_thr H h_end h_kill h_killx h_spawn h_spawned s h th)) = frame s.
+  Proof.
+    destruct th as [t ts|t [|]]; cbn [run_thr].
+    - apply run_st_frame.
     - reflexivity.
-    - destruct (lookup t (paused s)) as [[steps f]|]; reflexivity.
+    - destruct (lookup t (paused s)) as [ts|]; reflexivity.
   Qed.
 
   Lemma resume_nothing_due fuel : forall s h, (weight s <= fuel)%nat ->
-    frame (fst (fst (resume H h_end h_kill fuel s h))) = frame s /\
-    forall w, In w (pend (fst (fst (resume H h_end h_kill fuel s h)))) -> frame s < wdue w.
+    frame (fst (fst (resume H h_end h_kill h_killx h_spawn h_spawned fuel s h))) = frame s /\
+    forall w, In w (pend (fst (fst (resume H h_end h_kill h_killx h_spawn h_spawned fuel s h)))) -> frame s < wdue w.
   Proof.
     induction fuel as [|fuel IH]; intros s h Hw; cbn [resume].
     - destruct (pend s) as [|x r] eqn:Ep; cbn [fst]; [split; [reflexivity|rewrite Ep; intros w []]|].
@@ -507,9 +847,9 @@ Section Due.
       + split; [reflexivity|]. rewrite Ep. intros w Hin. pose proof (min_w_le r x w Hin). lia.
       + set (m := min_w x r).
         set (s1 := mkSched (remove_w (wseq m) (x :: r)) (paused s) (frame s) (clock s) (sseq s)).
-        pose proof (run_thr_weight H h_end h_kill s1 h (wthr m)) as Hr.
+        pose proof (run_thr_weight H h_end h_kill h_killx h_spawn h_spawned s1 h (wthr m)) as Hr.
         pose proof (run_thr_frame s1 h (wthr m)) as Hf.
-        destruct (run_thr H h_end h_kill s1 h (wthr m)) as [s2 h2]. cbn [fst] in Hr, Hf.
+        destruct (run_thr H h_end h_kill h_killx h_spawn h_spawned s1 h (wthr m)) as [s2 h2]. cbn [fst] in Hr, Hf.
         pose proof (wweight_remove m (x :: r) (min_w_in r x)) as Hm. fold m in Hm.
         rewrite (weight_eq s) in Hw. rewrite (weight_eq s1) in Hr. rewrite Ep in Hw. unfold s1 in Hr. cbn [pend paused] in Hr.
         destruct (IH s2 h2) as [F1 F2]; [lia|].
